@@ -51,6 +51,7 @@ func (c06) Cases(tier string, seed int64, kf *KnownFindings) []Case {
 	cs = append(cs, Case{Kind: "lit", S: "two-names-one-type", Count: 4, Sub: -1})
 	cs = append(cs, Case{Kind: "lit", S: "untyped-empty", Count: 4, Sub: -1})
 	cs = append(cs, Case{Kind: "lit", S: "skew-then-resent", Count: 4, Sub: -1})
+	cs = append(cs, Case{Kind: "lit", S: "ptr-key-map", Count: 4, Sub: -1})
 	cs = append(cs, Case{Kind: "faultcont", Count: 24, Sub: -1})
 	if tier == "thorough" {
 		// all histories of length <= 3 over a 12-value alphabet: 12 + 144 + 1728
@@ -241,6 +242,11 @@ func (c06) Run(c Case, env *Env) Result {
 				preStream = append([]byte{}, pw.Buf.Bytes()...)
 				preTm = map[string]reflect.Type{"c06.Rec": reflect.TypeOf(c06Narrow{}), "Inner": reflect.TypeOf(zoo.Inner{}), "[zoo.Inner": reflect.TypeOf([]*zoo.Inner{})}
 				featSet["version-skew"], featSet["dropped-then-resent"] = true, true
+			case "ptr-key-map":
+				// a generic map whose KEY (and one value) is an object already sent on the stream: both arrive as
+				// back-references and must come out as the object, of its documented type
+				acc, acc2 := &zoo.Inner{A: 1, S: "acc"}, &zoo.Inner{A: 2, S: "acc2"}
+				hist = []interface{}{acc, map[interface{}]interface{}{acc: int32(1), "v": acc}, acc2, []interface{}{map[interface{}]interface{}{acc2: acc}, acc2}}
 			case "untyped-empty":
 				// empty and nil lists travelling untyped: first inside a typed field, then (as the encoder sees
 				// it: the same empty container again) at a generic position, and the other way round
